@@ -1,7 +1,7 @@
 #!/bin/sh
 # builds the framework and warms the Go build cache; offline
 set -e
-cd /verif
+cd "$(dirname "$0")"
 export GOFLAGS=-mod=mod GOPROXY=off GOSUMDB=off GOTOOLCHAIN=local
 mkdir -p bin evidence replays
 go build -o bin/vcheck ./cmd/vcheck
